@@ -39,6 +39,45 @@ def prefix_choice_table(ctx, clause):
     return obs
 
 
+def who_may_reach_random(ctx, clause):
+    """Randomness is the documented last resort of the shapes-prefix choice only: the functions of the package that use the
+    `random` module are entered from outside their module through find_adequate_prefix_for_shapes_namespaces and nothing else."""
+    import ast
+    from ..core import walk_own
+    from ..report import Ob
+    p, r = ctx.p, ctx.r
+    users = []
+    for f in p.funcs.values():
+        for n in walk_own(f.node):
+            if isinstance(n, ast.Call) and isinstance(n.func, ast.Attribute) and isinstance(n.func.value, ast.Name) and n.func.value.id in ("random", "secrets", "uuid") \
+                    and p.resolve_name(f.module, n.func.value.id) not in (None,) and p.resolve_name(f.module, n.func.value.id)[0] in ("ext", "module"):
+                users.append(f)
+                break
+    obs = []
+    allowed_entry = "find_adequate_prefix_for_shapes_namespaces"
+    seen, todo, entries = set(), list(users), []
+    while todo:
+        f = todo.pop()
+        if f.qual in seen:
+            continue
+        seen.add(f.qual)
+        for cs in r.callers_of.get(f.qual, []):
+            if not ctx.reachable(cs.func):
+                continue
+            if cs.func.module is f.module:
+                if cs.func.name != allowed_entry:
+                    todo.append(cs.func)          # still inside the module and not yet at the documented entry: keep climbing
+            else:
+                entries.append((cs.func, f))      # entered from another module: f must be the documented entry
+    bad = [(c, f) for c, f in entries if f.name != allowed_entry]
+    obs.append(Ob(clause, "R-DET", "R-DET|random-entry-points", users[0].loc() if users else "shexer:0", not bad,
+                  "the %d function(s) that use `random` are entered from other modules only through %s (%d call sites)" % (
+                      len(users), allowed_entry, len(entries)) if not bad else
+                  "%s reaches the random generator through %s, not through %s: a random value can appear in the result although the user "
+                  "left the default shape prefixes free" % (bad[0][0].short, bad[0][1].short, allowed_entry)))
+    return obs
+
+
 def check(ctx, tier):
     obs = []
     o_sets, n_sets = det.check_sets(ctx, "D")
@@ -49,6 +88,7 @@ def check(ctx, tier):
     obs += o_glob
     obs += ctx.attempt(lambda c, cl: plumb.exclusive_source(c, cl, "rdflib_graph")[0], ctx, "D-d", default=[])
     obs += ctx.attempt(prefix_choice_table, ctx, "D-e", default=[])
+    obs += ctx.attempt(who_may_reach_random, ctx, "D-e", default=[])
     o_rdf, n_rdf = ctx.attempt(det.rdflib_iteration, ctx, "D-f", default=([], 0))
     obs += o_rdf
     exceptions.apply(obs)
